@@ -429,3 +429,120 @@ func emissionGatedBySibling(c *cx, id string, in func(f *eng.Fn) bool) int {
 	}
 	return n
 }
+
+// attrMarshalersByValue: a struct field with an `attr` tag whose type has its
+// MarshalXMLAttr on the POINTER receiver only is encoded through that method
+// when the struct is addressable (xml.Marshal(&v)) and through reflection on
+// the underlying kind when it is not (xml.Marshal(v): an enum is written as a
+// number). The two encodings of one value differ, and the decoder of the type
+// rejects the second. The method must be in the value method set of the
+// field's type.
+func attrMarshalersByValue(c *cx, id string, pkgs []string) int {
+	n := 0
+	for _, pk := range c.p.All {
+		ok := false
+		for _, rel := range pkgs {
+			if pk.PkgPath == eng.ModPath+"/"+strings.TrimSuffix(rel, ".") {
+				ok = true
+			}
+		}
+		if !ok || pk.Types == nil {
+			continue
+		}
+		sc := pk.Types.Scope()
+		for _, name := range sc.Names() {
+			tn, isT := sc.Lookup(name).(*types.TypeName)
+			if !isT {
+				continue
+			}
+			st, isS := tn.Type().Underlying().(*types.Struct)
+			if !isS {
+				continue
+			}
+			for i := 0; i < st.NumFields(); i++ {
+				fld := st.Field(i)
+				if !strings.Contains(st.Tag(i), ",attr") {
+					continue
+				}
+				ft, isN := fld.Type().(*types.Named)
+				if !isN {
+					continue
+				}
+				has := func(t types.Type) bool {
+					ms := types.NewMethodSet(t)
+					for j := 0; j < ms.Len(); j++ {
+						if ms.At(j).Obj().Name() == "MarshalXMLAttr" {
+							return true
+						}
+					}
+					return false
+				}
+				if !has(types.NewPointer(ft)) {
+					continue
+				}
+				n++
+				c.r.CheckNamed(id, strings.TrimPrefix(pk.PkgPath, eng.ModPath+"/")+"."+tn.Name(), "attribute field "+fld.Name()+" ("+eng.TypeStr(ft)+")", "T: the attribute marshaler of a by-value field is in the value method set of the field's type", fld.Pos(), has(ft), "MarshalXMLAttr of "+eng.TypeStr(ft)+" has a pointer receiver: xml.Marshal of a non-addressable "+tn.Name()+" writes the field through reflection (a number for an enum), which the type's own decoder rejects")
+			}
+		}
+	}
+	return n
+}
+
+// emptyContentAccepted (E-dec4): a decoder that takes the token after a start
+// element and insists on character data (v, ok := tok.(xml.CharData); !ok ->
+// error) refuses the element's own end tag, i.e. an EMPTY element. The encoders
+// write no character data for an empty value (base64 of no bytes, an empty
+// string), so the type's own output for that value does not decode. From the
+// !ok edge of such an assertion an error return is reachable only past a test
+// for xml.EndElement.
+func emptyContentAccepted(c *cx, id string, in func(f *eng.Fn) bool) int {
+	n := 0
+	for _, f := range c.allFns() {
+		if f.Body == nil || f.Obj == nil || !in(f) || !strings.HasPrefix(f.Obj.Name(), "UnmarshalXML") {
+			continue
+		}
+		g := f.Graph()
+		// was the end tag told apart before? (a type test for xml.EndElement
+		// anywhere on the way to the assertion or behind it)
+		testsEnd := func(q eng.Point, nd ast.Node) bool {
+			found := false
+			ast.Inspect(nd, func(x ast.Node) bool {
+				if ta, ok := x.(*ast.TypeAssertExpr); ok && ta.Type != nil {
+					if t := f.Info().TypeOf(ta.Type); t != nil && eng.TypeStr(t) == "encoding/xml.EndElement" {
+						found = true
+					}
+				}
+				return !found
+			})
+			return found
+		}
+		for _, ce := range g.EdgesMatching("!commaok(*.(encoding/xml.CharData))") {
+			n++
+			from := g.EdgeTarget(ce.E)
+			src := eng.Point{B: ce.E.B, I: 0}
+			handled := g.MustPassBefore(g.Entry(), src, testsEnd, nil)
+			bad := ""
+			if !handled {
+				for _, rs := range g.Returns {
+					rp, _ := g.Where(rs)
+					if g.RetKindOf(rs) == eng.RetError && g.Reachable(from, rp, nil, func(q eng.Point, nd ast.Node) bool {
+						if testsEnd(q, nd) {
+							return true
+						}
+						// the next read: errors behind it are about other tokens
+						for _, m := range []string{"*.Token", "*.Next", "*.DecodeElement", "*.Decode", "*.Skip"} {
+							if f.ContainsCall(nd, m) != nil {
+								return true
+							}
+						}
+						return false
+					}) {
+						bad = "the token after the start element must be character data or the decoder fails (return at " + c.p.Pos(rs.Pos()) + "): an empty element, which is what the encoder writes for an empty value, is refused"
+					}
+				}
+			}
+			c.r.Check(id, f, "empty element accepted where character data is expected", "E-dec4: the failure edge of a CharData assertion leads to an error only after the element's own end tag was told apart", f.Pos(), bad == "", bad)
+		}
+	}
+	return n
+}
